@@ -428,7 +428,7 @@ impl<'a> Adapter<'a> for NumbersAdapter {
                 matches!(vertex, NumbersVertex::Composite(..))
             }),
             ("Number" | "Named", "Neither") => resolve_coercion_with(contexts, |vertex| {
-                matches!(vertex, NumbersVertex::Composite(..))
+                matches!(vertex, NumbersVertex::Neither(..))
             }),
             ("Named", "Letter") => resolve_coercion_with(contexts, |vertex| {
                 matches!(vertex, NumbersVertex::Letter(..))
